@@ -48,6 +48,23 @@ Theorem C12_body_intact :
 Proof. exact body_intact. Qed.
 Print Assumptions C12_body_intact.
 
+(* Upstream faults: however many attempts reach the upstream for one request (the proxy gives up after
+   one; net/http re-sends a body-less request on a reused connection that died), under the same guards
+   EVERY attempt carries the whole body and signatures that verify over it. *)
+Theorem C12_every_attempt_verifies :
+  forall (c : cfg) (parsed : list (str * str)) (ident : option identity) (ip : str) (r0 : request) (b : str),
+  bare_target c = true -> has_prefix (r_path r0) [47] = true -> r_fragment r0 = [] -> r_body r0 = Some b ->
+  conn_safe g_protected (r_headers (at_sign_time c parsed ident r0)) = true ->
+  cl_canonical (at_sign_time c parsed ident r0) = true ->
+  forall n,
+  Forall (fun rr =>
+            r_body rr = Some (body_bytes r0) /\
+            (c_skip c = false -> forall sk, c_signer c = Some sk -> verify_rsa g_cov (published_certs c) rr = Some true) /\
+            (c_skip c = false -> forall key, c_hmac c = Some key -> verify_hmac g_covh key rr = 3))
+         (attempts n g_cov g_covh c parsed ident ip r0).
+Proof. exact g_every_attempt_verifies. Qed.
+Print Assumptions C12_every_attempt_verifies.
+
 (* Without guard 1 the statement is FALSE of the faithful model (known finding C12-K1):
    `Connection: Authorization` — the covered header is signed, then stripped by ReverseProxy's
    hop-by-hop removal; neither signature verifies at the upstream. *)
